@@ -10,6 +10,21 @@ checks, na = [], []
 for pid in props:
     c = claims.get(pid, {})
     if c.get('claimed'):
+        # rules added after the claim text was written: named from the last evidence file, whose
+        # coverage.rules holds the statement of every rule the check decides on each run
+        evp = os.path.join(root, 'evidence', pid + '.json')
+        extra = ''
+        if os.path.exists(evp):
+            rl = json.load(open(evp)).get('coverage', {}).get('rules', [])
+            ids = [x.split(':', 1)[0] for x in rl] if isinstance(rl, list) else list(rl.keys())
+            def rk(r):
+                t = r.split('.', 1)[1] if '.' in r else r
+                return (t.rstrip('0123456789'), int(''.join(ch for ch in t if ch.isdigit()) or 0))
+            rules = sorted(set(ids), key=rk)
+            extra = ' Rules decided on every run (each stated in the evidence file under coverage.rules): ' + ', '.join(rules) + '.'
+        c = dict(c); c['text'] = c['text'] + extra
+        if c.get('technique_added'):
+            c['technique'] = c['technique'] + '; ' + c['technique_added']
         checks.append({
             "property_id": pid,
             "quick_cmd": "/verif/bin/lalcheck -prop %s -tier quick" % pid,
